@@ -4,6 +4,7 @@ package c05
 
 import (
 	"fmt"
+	"os"
 	"strings"
 	"testing"
 
@@ -24,6 +25,9 @@ type Case struct {
 
 func judge(t *testing.T, sc sim.CScenario) (engine.Verdict, *sim.CHistory) {
 	h := sim.RunClient(t, sc)
+	if os.Getenv("VERIF_DEBUG") != "" {
+		t.Logf("script:\n%s\nhistory:\n%s", oracle.CScriptText(sc), oracle.CHistoryText(h))
+	}
 	for _, p := range oracle.ClientCheck(sc, h) {
 		if strings.HasPrefix(p.Sig, "C05/") {
 			return engine.Failf(p.Sig, "%s\nscript:\n%s\nhistory:\n%s", p.Msg, oracle.CScriptText(sc), oracle.CHistoryText(h)), h
